@@ -26,6 +26,100 @@ CHECKS = [
         "(transition tour) and the recorded executions are validated against the model by TLC; larger sessions (up to 70 outstanding "
         "requests) under seeded random schedules. Exactly-one/right-tag/right-content is decided by TLA+ monitors over wire bytes and "
         "the scripted implementation's log.", SRVNOTE, SRVTECH, "srv-family", "DESIGN.md 4.1, 5, 6 C03"),
+
+    chk("C07", "model_checking",
+        "Srv9P flush models (target kinds Attach/Stat/Clunk/Walk, with and without FlushOp, thorough: flush of a flush and two flushes "
+        "of one request with 3 requests) model-checked for FlushOrder, NoCallAfterCancel, FlushAnswered, CancelLeavesNothing; complete "
+        "transition tours of the small flush models replayed on the real server (every interleaving of the flusher's schedule points "
+        "with the target's is a path of the graph), executions trace-validated and judged by the TLA+ monitors incl. fid probes after "
+        "the Rflush; flush-heavy seeded random sessions.", SRVNOTE, SRVTECH, "srv-family", "DESIGN.md 4.1, 6 C07"),
+    chk("C08", "model_checking",
+        "Tag-group models (shared tags, 2-3 requests) model-checked for TagGroupFIFO/NoQueuedForever and, under fairness with one request "
+        "held for ever, the liveness property Progress; tours replayed on the real server; then every subset of up to 3 (thorough 6) "
+        "requests is held inside the scripted implementation while the others, later ones and a request on a second connection must "
+        "complete at exact quiescence (no timeouts), released in every order, Maxpend 0/1/4, with and without shared tags.",
+        SRVNOTE, SRVTECH + "; held-set engine with exact quiescence", "srv-family", "DESIGN.md 4.1, 6 C08"),
+    chk("C11", "model_checking",
+        "Srv9P with ClientClose/CloseEnter/CloseDestroy model-checked (disconnect at every point of every interleaving of 2 requests: "
+        "ClosedOnce, NoStuckThread, NoCrash); tour of the close model replayed; disconnect with 0..4 requests blocked in the "
+        "implementation released afterwards in every order, mid-frame cuts, a bystander connection; ConnClosed/FidDestroy accounting and "
+        "leftover goroutines (exact: goroutines still blocked when the synctest bubble ends) judged by the TLA+ monitors.",
+        SRVNOTE + " Two known findings (fids referenced by requests in progress at the disconnect) are listed in known_findings.json.",
+        SRVTECH, "srv-family", "DESIGN.md 4.1, 6 C11"),
+    chk("C04", "model_checking",
+        "FidRef.tla is the property as a sequential reference machine (fid table x request x implementation outcome -> reply class, calls "
+        "forwarded, fids destroyed). Its full state graph is covered by a transition tour (every (table state, request, outcome) edge; "
+        "quick: a seeded sample), each history executed on the real server with a scripted implementation, one and two connections, both "
+        "dialects, with and without AuthOps; TLC validates every observed reply/forwarding/destruction against FidRef!Step.",
+        "Trusted base: TLC, the reading of the property encoded in FidRef (only 'unknown fid' and 'fid already in use' are compared "
+        "literally), harness/wire. Sequential histories only.",
+        "TLA+ reference machine + TLC transition tour executed on the real server + TLC trace validation of the observations",
+        "fid-family", "DESIGN.md 4.2, 6 C04"),
+    chk("C05", "model_checking",
+        "Same machine and engine as C04: the product (fid state) x (request, mode, perm class, count class incl. 2^31 and 2^32-24..2^32-1) is "
+        "the edge set of the FidRef graph, covered by the tour; refusal-before-forwarding, exactly-once forwarding with fid/user, effects "
+        "visible to the next request, and AuthCheck-before-Attach are validated by TLC on the observations of the real server.",
+        "Trusted base as C04. Requests on which the property is silent are not generated (listed in the spec header).",
+        "TLA+ reference machine + TLC transition tour executed on the real server + TLC trace validation of the observations",
+        "fid-family", "DESIGN.md 4.2, 6 C05"),
+    chk("C01", "exploration",
+        "spec/Wire9P.tla gives the byte layout of all 27 message types in both dialects and of bare stat records; TLC evaluates the class "
+        "product per type x dialect (16k quick / 47k thorough vectors, each also an initial state on which the spec's own consistency "
+        "invariant VecOK is checked); every vector is executed on go9p Pack*/SetTag/Unpack/InitRread+SetRreadCount/PackDir/UnpackDir with "
+        "byte-for-byte comparison; plus seeded random values against the independent codec, itself cross-checked against every vector.",
+        "Trusted base: TLC, Wire9P's layout table (written from the manual), harness/wire. states/transitions in the evidence are vector "
+        "counts of one-step graphs, not a transition-system exploration.",
+        "TLA+ layout-as-data, TLC vector enumeration (ndjson export), conformance replay on the real codec, independent-codec cross-check",
+        "codec", "DESIGN.md 4.5, 6 C01, docs/wire.md"),
+    chk("C02", "exploration",
+        "TLC enumerates ~11k mutations (every truncation, cut, declared size, type byte, count/length substitution) of canonical packets of "
+        "every type x dialect and of bare stat records, each with the verdict of the specification's recogniser Parse; each is decoded by "
+        "Unpack/UnpackDir under recover with allocation measured, decoded again with different tails, and on success re-encoded; seeded "
+        "random mutants; thorough adds Go native fuzzing with the same oracle (random byte generation is outside the specification).",
+        "Trusted base: TLC, Wire9P!Parse, Go runtime allocation statistics (bound 64*len+64KiB).",
+        "TLA+ recogniser as oracle, TLC mutation enumeration, conformance replay with panic/allocation/tail-independence/round-trip oracle",
+        "codec", "DESIGN.md 4.5, 6 C02, docs/wire.md"),
+    chk("C13", "model_checking",
+        "RecvLoop.tla transcribes Conn.recv and Clnt.recv (buffer contents as segments, reallocation, advance, version lowering msize) and is "
+        "model-checked with scaled constants for both instances (delivered prefix, no zero-length read, no clobbering of delivered "
+        "payloads, illegal frames dropped); the recv_* events of real sessions (msize 64..4096, buffers wrapping many times) are validated "
+        "by TLC against RecvLoopTrace with the real constants; the same request/reply stream is replayed under every single split, "
+        "byte-wise, many-per-write and random splits against the real server and client and compared with the spec's prediction.",
+        "Trusted base: TLC, scaled constants for the exhaustive part (real constants only through trace validation), harness/wire.",
+        "TLA+/TLC model checking + TLC trace validation of recorded receive-loop events + segmentation sweep against the spec's prediction",
+        "recvloop", "DESIGN.md 4.4, 6 C13, docs/recvloop.md"),
+    chk("C14", "model_checking",
+        "UfsData.tla part A: files as extent lists; operators stating the property and a transcription of the client helper loops; the scaled "
+        "state machine is model-checked; TLC computes the boundary case tables for five real msizes (24k cases) and the expectations of "
+        "seeded random operation sequences over many open files; all replayed through the real client against real Ufs, both dialects, "
+        "compared with the model and with a twin file.",
+        "Trusted base: TLC, the twin (os package) as second oracle, runs as uid 0 on the sandbox file system.",
+        "TLA+/TLC model checking + TLC-computed case tables replayed through the real client and Ufs + twin-file comparison",
+        "ufsdata", "DESIGN.md 4.6, 6 C14, docs/ufsdata.md"),
+    chk("C15", "model_checking",
+        "UfsData.tla part B: directories as sequences of record sizes under the offset rule; Allowed (the property) and a transcription of "
+        "Ufs.Read's window and File.Readdir are model-checked (0..4 entries, every count, restart at 0); the transition tour is replayed on "
+        "real directories; larger directories (to several thousand entries, names 1..255, msize 256..64K, both dialects) by exploration, "
+        "every reply decoded record by record with the independent decoder and validated by TLC against the size/offset/count trace.",
+        "Trusted base: TLC, harness/wire, os.ReadDir. Model-checking evidence covers directories of <= 4-5 entries; larger ones are exploration "
+        "(both counts in the evidence).",
+        "TLA+/TLC model checking + tour replay on real directories + TLC validation of recorded directory-read traces",
+        "ufsdata", "DESIGN.md 4.6, 6 C15, docs/ufsdata.md"),
+]
+for pid, title in [("C16", "names and metadata (WalkAtomic, WalkPrefix, QidIdentity, StatAgrees)"),
+                   ("C17", "mutations (MutationsMirror, FailedCreateRemoveChangesNothing, ErrnoCarried, FidFollowsCreateRename)"),
+                   ("C18", "confinement (Confined over the name grammar '..', '.', '', '/', 'a/b', '/abs', '../x' at every depth; canaries)")]:
+    CHECKS.append(chk(pid, "model_checking",
+        "UfsTree.tla models the host tree (incl. canaries outside the root), POSIX path resolution and the Ufs layer (fids, one action per "
+        "request); TLC model-checks " + title + " on small trees; tours/simulated behaviours are executed three ways -- model, the same "
+        "operation with the os package on a twin tree, and raw 9P against a real Ufs -- and compared after every step (replies, errno in .u, "
+        "qids vs inodes, Rstat vs Lstat, recursive tree comparison, canaries, Tstat probes of every fid); TLC validates the twin log against "
+        "the model (a model/twin disagreement is inconclusive, never a violation).",
+        "Trusted base: TLC, the twin (os/syscall) as second oracle, harness/wire, uid 0 on the sandbox file system (no permission denials). "
+        "Scope guards are listed as assumptions in the evidence.",
+        "TLA+/TLC model checking + tour/simulation replay on real Ufs with twin-tree comparison + TLC trace validation of the twin log",
+        "ufstree", "DESIGN.md 4.6, 6 " + pid + ", docs/ufstree.md"))
+CHECKS += [
     chk("C20", "model_checking",
         "Logger.tla (ring, index, buffered channel; the three doLog loops transcribed literally) exhaustively checked for capacities "
         "1..3 (thorough 1..4), <=6/7 Log calls, 2x2 owners/types incl. liveness under WF(Drain) and deadlock; every transition of the "
@@ -48,6 +142,16 @@ def main():
              {"name": "srv-family", "path": "harness/srvh + spec/Srv9P.tla, Srv9PTrace.tla, Mon9P.tla + lib/srvfam.py",
               "serves_properties": ["C03", "C07", "C08", "C11"],
               "kind_free_text": "gate controller on testing/synctest, scripted implementation, TLC tours/trace validation/monitors"},
+             {"name": "fid-family", "path": "harness/srvh (fidref_test.go) + spec/FidRef.tla, FidRefTrace.tla + lib/fidfam.py",
+              "serves_properties": ["C04", "C05"], "kind_free_text": "reference machine, tour replay, TLC validation of observations"},
+             {"name": "codec", "path": "harness/codec + spec/Wire9P.tla", "serves_properties": ["C01", "C02"],
+              "kind_free_text": "TLC-enumerated vectors executed on the real codec"},
+             {"name": "recvloop", "path": "harness/recvh + spec/RecvLoop.tla, RecvLoopTrace.tla", "serves_properties": ["C13"],
+              "kind_free_text": "segmentation sweeps and receive-loop trace validation"},
+             {"name": "ufsdata", "path": "harness/ufsdata + spec/UfsData.tla, UfsDataTrace.tla", "serves_properties": ["C14", "C15"],
+              "kind_free_text": "real client + real Ufs on a scratch tree"},
+             {"name": "ufstree", "path": "harness/ufstree + spec/UfsTree.tla, UfsTreeTrace.tla", "serves_properties": ["C16", "C17", "C18"],
+              "kind_free_text": "raw 9P + twin tree + model"},
              {"name": "logger", "path": "harness/logh + spec/Logger.tla, LoggerTrace.tla", "serves_properties": ["C20"],
               "kind_free_text": "tour replay and recorded-trace validation of go9p.Logger"},
          ],
